@@ -17,7 +17,7 @@ from sa.cfg import NORMAL, describe_path
 from sa.report import Report
 from sa.sides import SideAnalysis, show, canon
 from sa.effects import Effects
-from sa.util import cfg_root, node_has_call, node_stores_attr, has_fact
+from sa.util import cfg_root, node_has_call, node_stores_attr, has_fact, fact_in
 from sa import pat
 
 
@@ -134,14 +134,14 @@ class C20:
         arms = set()
         for a in incl:
             facts = ctx.facts_at(f, a)
-            if ("%s in self.requestset" % ent, True) in facts:
+            if fact_in(facts, "%s in self.requestset" % ent, True):
                 arms.add("requested")
-            elif ("%s[REMOTE].otype == DIRECTORY" % ent, True) in facts:
+            elif fact_in(facts, "%s[REMOTE].otype == DIRECTORY" % ent, True):
                 arms.add("directory")
-            elif ("%s.is_latest()" % ent, False) in facts and any(pol and "changed" in txt and " or " in txt for (txt, pol) in facts):
+            elif fact_in(facts, "%s.is_latest()" % ent, False) and any(pol and "changed" in txt and " or " in txt for (txt, pol) in facts):
                 arms.add("stale")
-            elif ("%s[LOCAL].oid" % ent, False) in facts and any(pol and "callback(" in txt for (txt, pol) in facts) or \
-                    (("%s[LOCAL].oid" % ent, False) in facts and any(pol and "callback(" in txt.replace(" ", "") or (pol and "callback" in txt) for (txt, pol) in facts)):
+            elif fact_in(facts, "%s[LOCAL].oid" % ent, False) and any(pol and "callback(" in txt for (txt, pol) in facts) or \
+                    (fact_in(facts, "%s[LOCAL].oid" % ent, False) and any(pol and "callback(" in txt.replace(" ", "") or (pol and "callback" in txt) for (txt, pol) in facts)):
                 arms.add("auto-sync")
             else:
                 arms.add("?" + str(sorted(facts)))
@@ -251,7 +251,13 @@ class C20:
         rep, ctx = self.rep, self.ctx
         rep.rule("C20.S5", "merged listing: is_synced is True exactly on the arm that has local info", expect_min=2)
         f = self.cs.methods["_get_smartinfo"]
-        sets = [n for n in ctx.own_nodes(f) if isinstance(n, ast.Assign) and isinstance(n.targets[0], ast.Name) and n.targets[0].id == "is_synced" and isinstance(n.value, ast.Constant)]
+        flag = None
+        for n_ in ctx.own_nodes(f):
+            if isinstance(n_, ast.Call) and isinstance(n_.func, ast.Name) and n_.func.id == "SmartInfo":
+                for k in n_.keywords:
+                    if k.arg == "is_synced" and isinstance(k.value, ast.Name):
+                        flag = k.value.id
+        sets = [n for n in ctx.own_nodes(f) if isinstance(n, ast.Assign) and isinstance(n.targets[0], ast.Name) and n.targets[0].id == flag and isinstance(n.value, ast.Constant)]
         if len(sets) < 2:
             raise AnalysisError("_get_smartinfo: is_synced assignments not found")
         li = f.params()[2]
